@@ -56,6 +56,13 @@ func runWithSchedule(cfg Config, steps []Step, sched SchedSpec, stats *Stats, en
 			return w.execGuarded(&Step{Op: "dropcache"})
 		case "reopen":
 			return w.execGuarded(commitStep("reopen"))
+		case "preload":
+			// commit, evict, then fill the read cache in bulk (serial or parallel decode; ids that do not
+			// exist sit between the real ones): what the cache then serves must be what a fresh decode serves
+			if v := w.execGuarded(commitStep("commit")); v != nil {
+				return v
+			}
+			return w.execGuarded(&Step{Op: "preload", N: []int{100, 100, 60}[cr.Intn(3)], Workers: []int{1, 2, 4}[cr.Intn(3)], Pos: cr.U64() % (1 << 32), Keep: true})
 		}
 		return nil
 	}
@@ -79,7 +86,7 @@ func runWithSchedule(cfg Config, steps []Step, sched SchedSpec, stats *Stats, en
 			}
 		}
 		if kind == "mixed" {
-			kind = []string{"commit", "commit+drop", "reopen", "drop"}[sr.Intn(4)]
+			kind = []string{"commit", "commit+drop", "reopen", "drop", "preload"}[sr.Intn(5)]
 		}
 		if kind != "" {
 			nres := len(w.Results)
@@ -168,7 +175,7 @@ func schedVariants(r *Rng, n int) []SchedSpec {
 		{Mode: "every", K: 1, Act: "commit+drop"},
 		{Mode: "every", K: 1, Act: "reopen"},
 	}
-	acts := []string{"commit", "commit+drop", "reopen", "mixed", "drop"}
+	acts := []string{"commit", "commit+drop", "reopen", "mixed", "drop", "preload", "mixed"}
 	for len(out) < n {
 		if r.Chance(0.4) {
 			out = append(out, SchedSpec{Mode: "every", K: r.Range(2, 9), Act: acts[r.Intn(len(acts))], Seed: r.U64()})
